@@ -126,7 +126,7 @@ pub fn run(args: &Args) -> Report {
       if replay.as_ref().map_or(true, |(c, _)| c == "crash-points") {
         r.merge(wf::run_crash_points("C19", t, s, 300 * scale, replay.as_ref().map(|x| x.1)));
       }
-      r.rule = format!("{}Fault classes: (a) crash-point enumeration - for a well-formed case and a chosen top-down session the whole run is repeated with a panic injected at EVERY task operation k of that session (any nesting depth); the caught abort is followed by the rest of the history on the same instance; because the programs have static roles, every later session must return exactly the from-scratch result and must not abort; (b) diagnosed violations and user panics injected value-conditionally (cycle, hidden dependency, overlapping write, task panic), followed by further sessions with the cause kept or removed. Monitor: a later build may return (then = Ref), or abort with a diagnosis (judged by C20's classifier), but any other panic - a message starting with BUG, or any panic raised inside /repo - is a violation; the store dump after the abort must equal the shadow including reserved and partial dependencies. evaluations = runs (one per crash point / per case); non-trivial = a distinct run with re-execution of a completed task.", CLASS_DOC);
+      r.rule = format!("{}Fault classes: (a) crash-point enumeration - for a well-formed case and a chosen top-down session the whole run is repeated with a panic injected at EVERY task operation k of that session (any nesting depth; in half of the cases entries of other user code - resource open, checker stamp/check calls, write functions - count as operations too; in a third of the cases the crashed session is a bottom-up build and all later builds are top-down); the caught abort is followed by the rest of the history on the same instance; because the programs have static roles, every later session must return exactly the from-scratch result and must not abort; (b) diagnosed violations and user panics injected value-conditionally (cycle, hidden dependency, overlapping write, task panic), followed by further sessions with the cause kept or removed. Monitor: a later build may return (then = Ref), or abort with a diagnosis (judged by C20's classifier), but any other panic - a message starting with BUG, or any panic raised inside /repo - is a violation; the store dump after the abort must equal the shadow including reserved and partial dependencies. evaluations = runs (one per crash point / per case); non-trivial = a distinct run with re-execution of a completed task.", CLASS_DOC);
       r.floor("crash points enumerated", r.get("crash_points") > 500 || replay.is_some());
       r.floor("aborts observed", r.get("aborts") > 500 || replay.is_some());
       r
